@@ -22,7 +22,7 @@ func init() { register(c01{}) }
 func (c01) Meta() core.Meta {
 	return core.Meta{
 		ID: "C01", Level: "exploration",
-		Rule: "case i = f(seed,i): option configuration (attr prefix x key prefix x lower x snake x simple-as-map x keep-spaces x tag-seq-num x decoder-escape x cast flags) + generated XTree (names from a colliding alphabet, depth<=6, wide mode >32 kids, attrs, one text run in any position) rendered with syntactic variety (quotes, empty-element forms, CDATA vs references, inter-element whitespace, prolog); decoded through NewMapXml / NewMapXmlReader (ByteReader and plain Reader) / NewMapXmlReaderRaw / x2j.XmlToMap and compared with the reference decode. Non-trivial: depth>=2 and at least one of {repeat, interleaved repeat, attribute, text beside attrs/children, ns prefix}; distinct by hash(document bytes, config).",
+		Rule:        "case i = f(seed,i): option configuration (attr prefix x key prefix x lower x snake x simple-as-map x keep-spaces x tag-seq-num x decoder-escape x cast flags) + generated XTree (names from a colliding alphabet, depth<=6, wide mode >32 kids, attrs, one text run in any position) rendered with syntactic variety (quotes, empty-element forms, CDATA vs references, inter-element whitespace, prolog); decoded through NewMapXml / NewMapXmlReader (ByteReader and plain Reader) / NewMapXmlReaderRaw / x2j.XmlToMap and compared with the reference decode. Non-trivial: depth>=2 and at least one of {repeat, interleaved repeat, attribute, text beside attrs/children, ns prefix}; distinct by hash(document bytes, config).",
 		Assumptions: []string{"encoding/xml tokenizer is the definition of well-formed", "reference decode written from the documentation (DESIGN 3.3)", "documents outside the stated domain (reserved-key names, attribute/child key clash under a non-empty prefix) are skipped and counted"},
 		Anchors:     []string{"xmlToMapParser", "NewMapXml", "NewMapXmlReader", "NewMapXmlReaderRaw", "cast", "x2j.XmlToMap"},
 		Floors:      map[string]int64{"feature:interleaved": 50, "feature:wide": 5, "cfg:emptyAttrPrefix": 20, "cfg:seqnum": 20, "cfg:decesc": 20, "cfg:cast": 100, "feature:cdata-or-ref": 100},
@@ -37,7 +37,7 @@ func (c01) Cases(tier string, race bool) int {
 	if tier == "thorough" {
 		return 600000
 	}
-	return 12000
+	return 40000
 }
 
 var c01gen = xt.GenCfg{Names: xt.DefNames, Prefixes: xt.DefPrefixes, Texts: xt.DefTexts, MaxKids: 4, MaxAttrs: 3, WideProb: 40}
